@@ -6,6 +6,7 @@ import statistics
 import warnings
 from fractions import Fraction as F
 import numpy as np
+import common
 from common import xr, xvec, from_xr, from_xvec, num_close
 
 ID = "C08"
@@ -157,6 +158,7 @@ def build(D):
     m.quantile_scores = None if not qnt else np.stack([np.array(v, float) for _, v in qnt], -1).reshape(n, 1, 1, len(qnt))
     m.ensemble = None if D.get("ens") is None else np.array(D["ens"], float).reshape(n, 1, 1, -1)
     m.other_fields = []
+    _BUILT.append(common.Unchanged(m.obs, m.fcst, m.pit, m.threshold_scores, m.quantile_scores, m.ensemble))
     return verif.data.Data([m])
 
 
@@ -217,7 +219,21 @@ def _compute(name, data, iv):
     return _val(r)
 
 
+_BUILT = []          # one Unchanged guard per in-memory input built during the current op
+
+
 def impl(op):
+    """the arrays an Input object holds must be what they were after any sequence of requests and scores (C18:
+    "the input objects' data are left unmodified"; seeded change C18f: np.quantile(..., overwrite_input=True)
+    permuted the members of the stored ensemble)"""
+    del _BUILT[:]
+    out = _impl(op)
+    if not all(g.ok() for g in _BUILT):
+        return "MUTATED-INPUT " + str(out)
+    return out
+
+
+def _impl(op):
     import verif.axis
     import verif.field
     import verif.metric
@@ -928,6 +944,9 @@ def _judge_scores(name, o, p, tok, tol, where):
 
 
 def judge(op, impl_out, spec_out):
+    v = common.mutated_verdict(op, impl_out)
+    if v:
+        return v
     a = op.split(" ")
     if a[0] == "ensseq":
         D = dec_ds(a[1])
